@@ -77,7 +77,7 @@ Proof.
     rewrite (cs_shape_no_head _ (constraints_cs_shape G defs cs Hc HG c Hcin)). reflexivity.
 Qed.
 
-(* the empty completed definitions of the missing OUTPUT predicates (/repo <COMMIT-F17>) are
+(* the empty completed definitions of the missing OUTPUT predicates (/repo 70e6ace) are
    public: they never are Assumption formulas *)
 Lemma assumptions_missing_outputs public outs D :
   incl outs public ->
